@@ -1558,6 +1558,13 @@ M('C17', 'twin: HelicalLattice.from_hdf5 reads position_disorder through a local
   "        if 'position_disorder' in h5gr:  # not derived in __init__\n            obj.position_disorder = hdf5_loader.load(subpath + 'position_disorder')\n", "        key = 'position_disorder'\n        if key in h5gr:\n            obj.position_disorder = hdf5_loader.load(subpath + key)\n",
   None, expect='silent')
 
+M('C17', 'original defect: UniformMPS.from_hdf5 does not bind diagonal_gauge', 'tenpy/networks/uniform_mps.py',
+  "        obj.diagonal_gauge = False  # (the gauge of the saved C is not recorded: re-done on demand)\n", "",
+  'HDF5-inherited-loader')
+M('C17', 'original defect: MomentumMPS.from_hdf5 does not bind dtype', 'tenpy/networks/momentum_mps.py',
+  "        obj.dtype = np.result_type(*(X.dtype for X in obj._X))\n", "",
+  'HDF5-inherited-loader')
+
 M('C02', 'original defect: iswapaxes re-binds _qdata to an F-contiguous column selection', NPC,
   "        self._qdata = np.array(self._qdata[:, swap], order='C')  # (column selection is F-contiguous)", "        self._qdata = self._qdata[:, swap]",
   'QDATA-contiguous')
